@@ -137,8 +137,37 @@ def run(ctx):
                        'the output (tag parser) = independent denotation of the AST. Excluded shapes: ")>" (child of a group).')
     cases = gen(ctx)
     impl = run_cases(ctx, model, cases, 'C01', oracle)
+    poisoned_sequences(ctx, cases)
     for (abbr, cfg, exp), r in list(zip(cases, impl))[200:204]:
         ctx.sample({'abbr': abbr, 'config': cfg, 'denoted': exp[:8], 'output': r[1][:120] if r[0] == 'ok' else r})
+
+
+POISON_ABBRS = ['p{${1', 'a[href=${1', 'p{${1:text', 'a[b="x', '(a>b', 'a{t', 'ul>li[title="x', 'ul>li)', 'div>p?', 'a[b=${', '{${x']
+
+
+def poisoned_sequences(ctx, cases):
+    """The tree of an expansion does not depend on earlier calls, in particular not on earlier REJECTED abbreviations
+    (unterminated fields, brackets, quotes): every few cases a malformed abbreviation is expanded first."""
+    from markup_util import impl_expand
+    rng = ctx.rng
+    n = 0
+    step = max(1, len(cases) // (400 if ctx.tier == 'quick' else 4000))
+    for k in range(0, len(cases), step):
+        abbr, cfg, meta = cases[k]
+        poison = rng.choice(POISON_ABBRS)
+        impl_expand(poison, cfg)
+        r = impl_expand(abbr, cfg)
+        n += 1
+        ctx.count_eval()
+        ctx.cover('C01:after-rejected-abbreviation')
+        bad = oracle(abbr, cfg, meta, r)
+        if bad:
+            ctx.property_failure('C01:after-rejected:%s|%s' % (abbr, poison),
+                                 'C01 expand(%r) right after the rejected abbreviation %r: %s' % (abbr, poison, bad),
+                                 {'component': 'C01-sequence', 'abbr': abbr, 'config': cfg, 'poison': poison, 'meta': meta,
+                                  'impl': repr(r)[:500], 'why': bad})
+            break
+    ctx.cov['after_rejected_sequences'] = n
 
 
 def replay(ctx, obj):
@@ -147,6 +176,12 @@ def replay(ctx, obj):
         print('replay names a broken obligation, no input: %s' % str(rp)[:300])
         return 1
     from markup_util import impl_expand
+    if rp.get('component') == 'C01-sequence':
+        impl_expand(rp['poison'], rp['config'])
+        r = impl_expand(rp['abbr'], rp['config'])
+        bad = oracle(rp['abbr'], rp['config'], [tuple(x) for x in rp['meta']], r)
+        print('expand(%r) after rejected %r -> %r : %s' % (rp['abbr'], rp['poison'], r, bad or 'property holds'))
+        return 1 if bad else 0
     import emmet.abbreviation  # noqa
     # re-derive the denotation from the text is not possible; re-run the recorded comparison
     r = impl_expand(rp['abbr'], rp['config'])
